@@ -114,7 +114,8 @@ def check_c09(tier, seed):
                     rec = dict(kind="rule-valid-rejected", what="a declaration that follows every documented rule does not compile", case=c["id"], family=c["family"],
                                program=unit_text(u), errors=[dict(part=p, code=k, message=m) for p, k, m in errs[:3]], observed="rejected: " + errs[0][2][:200],
                                expected="accepted", macro_profile=mp, replay_kind="compile", expect="accept")
-                    res.violations.append((dict(category="rule-valid-rejected", shape=field_kind_class(c) + " on " + rejects.base_class(c["base"])), rec))
+                    shape = rules.D4_SHAPE if rules.list_exceeds_storage(c) else field_kind_class(c) + " on " + rejects.base_class(c["base"])
+                    res.violations.append((dict(category="rule-valid-rejected", shape=shape), rec))
                 else:
                     cov["accepted_ok"] += 1
             for u in reject_units:
